@@ -8,7 +8,7 @@ generates the values (`_generate_streamer_setup_vals`, `_generate_stream_setup_v
 `…Fields` mirrors the first, `…Vals` mirrors the second (including the exceptions it raises), nothing is
 shared between the two except the configuration they read.
 
-Sources mirrored (pinned tree, plus the two shipped repairs selected by `Variant.fixed`):
+Sources mirrored (every repaired site is selected by a flag of `Variant`; `Variant.fixed` = all repairs):
 * `snaxc/accelerators/snax.py`       `SNAXStreamer._generate_streamer_setup_vals` / `get_streamer_setup_fields`
                                      / `get_xdma_streamer_setup_fields`
 * `snaxc/accelerators/snax_alu.py`   `_generate_stream_setup_vals`, `fields`
@@ -48,16 +48,30 @@ def Streamer.has (s : Streamer) (o : Opt) : Bool := s.opts.any (· == o)
 def Streamer.exts (s : Streamer) : List Ext :=
   s.opts.filterMap fun | .ext e => some e | _ => none
 
-/-- Which tree is modelled at the two repaired sites (D11 → F11, D12 → F14). -/
-inductive Variant | pristine | fixed
+/-- Which tree is modelled, one flag per repaired site (`true` = the repair is applied). -/
+structure Variant where
+  f11 : Bool              -- D11 → F11: gemmx rescale-only kernel emits n multipliers
+  f14 : Bool              -- D12 → F14: xDMA declares `_enabled_chan` only with a channel mask
+  zeroPerOperand : Bool   -- D80 → FC08a: xDMA masks use the zero-pointer flag of their own operand
+  extCsrLen : Bool        -- D83 → FC08b: xDMA emits `csr_length` zeros per extension for a non-generic body
+  loopAllDims : Bool      -- D82 → FC08c: alu loop bound = product of all upper bounds of stream 0
   deriving DecidableEq, Repr
 
+/-- the tree as pinned: no repair -/
+def Variant.pristine : Variant := ⟨false, false, false, false, false⟩
+/-- every shipped repair applied (F11, F14, FC08a, FC08b, FC08c) -/
+def Variant.fixed : Variant := ⟨true, true, true, true, true⟩
+/-- /repo before FC08a–c: only F11 and F14 -/
+def Variant.repo : Variant := ⟨true, true, false, false, false⟩
+
 inductive Err | indexError | assertionError | valueError | zeroDivision | notImplemented
+  | mappingNotFound | malformed          -- snax_phs: raised by the PHS encoder / decoder
   deriving DecidableEq, Repr
 
 def Err.name : Err → String
   | .indexError => "IndexError" | .assertionError => "AssertionError" | .valueError => "ValueError"
   | .zeroDivision => "ZeroDivisionError" | .notImplemented => "NotImplementedError"
+  | .mappingNotFound => "MappingNotFoundError" | .malformed => "Malformed"
 
 /-! ## Operations -/
 
@@ -86,6 +100,7 @@ inductive Leaf
   | inp (i : Nat)    -- i-th input of the first `dart.generic` (qmac zero points)
   | ptr (i : Nat)    -- hwpe: aligned pointer + byte offset of memref operand i, as i32
   | dim (i : Nat)    -- hwpe: `memref.dim %operand_i, 0`, as i32
+  | dimDiv4 (i : Nat) -- alu (linalg path): `memref.dim %operand_i, 0` divided (unsigned) by 4, as i32
   deriving DecidableEq, Repr
 
 /-- A generated value: the expression tree of the `arith` ops that define it. -/
@@ -127,6 +142,8 @@ inductive Field
   | enabledChan (s : Nat) | enabledByte (s : Nat) | bypass (s : Nat) | extCsr (s : Nat) (e : Ext) (i : Nat)
   -- alu
   | aluMode | loopBoundAlu
+  -- phs
+  | phsSwitch (i : Nat)
   -- gemmx
   | K | N | M | subtractions | csr0 | csr1 | shift (i : Nat) | mult (i : Nat) | temporalLoopBound | bypassSIMD
   -- hwpe
@@ -150,6 +167,7 @@ def Field.name : Field → String
   | .enabledChan s => s!"{sname s}_enabled_chan" | .enabledByte s => s!"{sname s}_enabled_byte"
   | .bypass s => s!"{sname s}_bypass" | .extCsr s e i => s!"{sname s}_{e.name}_{i}"
   | .aluMode => "alu_mode" | .loopBoundAlu => "loop_bound_alu"
+  | .phsSwitch i => s!"phs_switch_{i}"
   | .K => "K" | .N => "N" | .M => "M" | .subtractions => "subtractions" | .csr0 => "csr0" | .csr1 => "csr1"
   | .shift i => s!"shift_{i}" | .mult i => s!"mult_{i}"
   | .temporalLoopBound => "temporal_loop_bound" | .bypassSIMD => "bypassSIMD"
@@ -272,23 +290,56 @@ def writtenDims (st : Streamer) (p : Pattern) : List (Int × Int) :=
 
 /-! ## snax_alu (streaming-region path) -/
 
+def prodI (l : List Int) : Int := l.foldr (· * ·) 1
+
 def aluFields (cfg : List Streamer) : List Field := streamerFields cfg ++ [.aluMode, .loopBoundAlu]
 
-/-- `op.stride_patterns.data[0].upper_bounds.data[0]` is evaluated first. -/
-def firstBound (op : StreamOp) : Except Err Int :=
+/-- The loop count of the ALU, evaluated first. Unrepaired: `op.stride_patterns.data[0].upper_bounds.data[0]`
+(IndexError without a loop); FC08c: `prod(x.data for x in op.stride_patterns.data[0].upper_bounds)`. -/
+def firstBound (v : Variant) (op : StreamOp) : Except Err Int :=
   match op.pats[0]? with
   | none => .error .indexError
-  | some p => match p.dims[0]? with
-    | none => .error .indexError
-    | some d => .ok d.1
+  | some p =>
+    if v.loopAllDims then .ok (prodI (p.dims.map (·.1)))
+    else match p.dims[0]? with
+      | none => .error .indexError
+      | some d => .ok d.1
 
-def aluVals (cfg : List Streamer) (op : StreamOp) : Except Err (List Val) :=
-  match firstBound op with
+def aluVals (v : Variant) (cfg : List Streamer) (op : StreamOp) : Except Err (List Val) :=
+  match firstBound v op with
   | .error e => .error e
   | .ok lb =>
     match streamerVals cfg op with
     | .error e => .error e
     | .ok sv => .ok (sv ++ [.c 0, .c lb])
+
+/-! ## snax_alu, legacy `linalg.generic` path (`_generate_setup_vals`): a fixed table -/
+
+/-- The 17 values the legacy path emits for `linalg.generic(a, b) -> o` over 1-d memrefs, whatever the streamer
+configuration of the accelerator is: per operand (pointer, 0, 8, dim/4, 32), then alu mode 0 and dim/4 iterations. -/
+def aluLinalgVals : List Val :=
+  let lb : Val := .leaf (.dimDiv4 0)
+  [.leaf (.ptr 0), .c 0, .c 8, lb, .c 32,
+   .leaf (.ptr 1), .c 0, .c 8, lb, .c 32,
+   .leaf (.ptr 2), .c 0, .c 8, lb, .c 32,
+   .c 0, lb]
+
+/-- the configuration the table was written for (`snax_alu.default_streamer`) -/
+def aluDefault : List Streamer :=
+  [ { tdims := [.n], sdims := [4], opts := [] }, { tdims := [.n], sdims := [4], opts := [] },
+    { tdims := [.n], sdims := [4], opts := [] } ]
+
+/-- What the registers mean for an elementwise operation over 1-d `i64` memrefs on 4 lanes: base pointer of operand
+`s`, 8 bytes between lanes, `dim/4` temporal steps of 32 bytes, and as many ALU iterations. -/
+def aluLinalgMeaning : Field → Option Den
+  | .ptrLow s => if s < 3 then some (fun env => env (.ptr s)) else none
+  | .ptrHigh s => if s < 3 then some (konst 0) else none
+  | .sstride s 0 => if s < 3 then some (konst 8) else none
+  | .bound s 0 => if s < 3 then some (fun env => env (.dimDiv4 0)) else none
+  | .tstride s 0 => if s < 3 then some (konst 32) else none
+  | .aluMode => some (konst 0)
+  | .loopBoundAlu => some (fun env => env (.dimDiv4 0))
+  | _ => none
 
 /-! ## snax_gemmx -/
 
@@ -348,6 +399,8 @@ structure GParams where
   mults : List Val
   tlb : Val
   byp : Val
+  /-- attributes `_generate_setup_vals` attaches to the `accfg.launch` (consumed by `lower_acc_launch`) -/
+  attrs : List (String × List Int) := []
   deriving Repr
 
 def c255 : Val := .c 255
@@ -366,8 +419,6 @@ def packShiftChunk : List Int → Except Err Val
   | [a, b, c, d] => .ok (pack4 (.c d) (.c c) (.c b) (.c a) 24 16 8 0)
   | _ => .error .valueError
 
-def prodI (l : List Int) : Int := l.foldr (· * ·) 1
-
 /-- per-channel arrays: a single value is broadcast to `n` channels -/
 def bcastN (n : Nat) (l : List Int) : List Int :=
   match l with
@@ -384,6 +435,17 @@ def effRescale (n : Nat) (op : GemmxOp) : Rescale :=
   match op.post with
   | some r => { r with shifts := bcastN n r.shifts, mults := bcastN n r.mults }
   | none => defaultRescale n
+
+/-- Channel-wise requantisation with more channels than the array has columns: the registers carry the first `n`
+channels, the complete attribute arrays of the `kernel.rescale` (as written, not broadcast) and `M` travel as
+attributes of the launch: `shift_vals` iff more than `ceil(n/4)` packed shift words, `mult_vals` and `m` iff more than
+`n` multipliers. -/
+def launchAttrs (n : Nat) (op : GemmxOp) (nShiftWords nMults : Nat) (m : Int) : List (String × List Int) :=
+  match op.post with
+  | none => []
+  | some r =>
+    (if nShiftWords > ceil4 n then [("shift_vals", r.shifts)] else [])
+    ++ (if nMults > n then [("mult_vals", r.mults), ("m", [m])] else [])
 
 def gemmxParams (v : Variant) (n : Nat) (op : GemmxOp) : Except Err GParams :=
   match op.kernel with
@@ -408,7 +470,7 @@ def gemmxParams (v : Variant) (n : Nat) (op : GemmxOp) : Except Err GParams :=
             .ok { k := k, n := 1, m := m, sub := sub,
                   csr0 := csr0Val r.minI r.maxI r.outZp r.inZp, csr1 := .c r.dr,
                   shifts := sh.take (ceil4 n), mults := (r.mults.map Val.c).take n,
-                  tlb := .c m, byp := .c 0 }
+                  tlb := .c m, byp := .c 0, attrs := launchAttrs n op sh.length r.mults.length m }
         else
           .ok { k := k, n := 1, m := m, sub := sub, csr0 := .c 0, csr1 := .c 0,
                 shifts := List.replicate (ceil4 n) (.c 0), mults := List.replicate n (.c 1),
@@ -425,7 +487,7 @@ def gemmxParams (v : Variant) (n : Nat) (op : GemmxOp) : Except Err GParams :=
               csr0 := csr0Val r.minI r.maxI r.outZp r.inZp, csr1 := .c r.dr,
               shifts := List.replicate (ceil4 n) sh,
               -- D11: the pristine tree emits ceil(n/4) multipliers for n `mult_i` fields
-              mults := List.replicate (match v with | .pristine => ceil4 n | .fixed => n) (.c mu),
+              mults := List.replicate (if v.f11 then n else ceil4 n) (.c mu),
               tlb := .c m, byp := .c 0 }
       | _, _ => .error .indexError
   | .other => .error .notImplemented
@@ -479,9 +541,7 @@ def xdmaBlockFields (v : Variant) (x : Streamer × Nat) : List Field :=
   ++ (List.range x.1.tdims.length).map (Field.bound x.2)
   ++ (List.range x.1.tdims.length).map (Field.tstride x.2)
   -- D12: the pristine tree declares `_enabled_chan` unconditionally
-  ++ (match v with
-      | .pristine => [.enabledChan x.2]
-      | .fixed => if x.1.has .chan then [.enabledChan x.2] else [])
+  ++ (if v.f14 then (if x.1.has .chan then [.enabledChan x.2] else []) else [.enabledChan x.2])
   ++ (if x.1.has .byteMask then [.enabledByte x.2] else [])
   ++ [.bypass x.2]
   ++ x.1.exts.flatMap fun e => (List.range (csrLen e)).map (Field.extCsr x.2 e)
@@ -493,14 +553,16 @@ def bypassFrom (k : XKernel) : Nat → List Ext → Int
   | _, [] => 0
   | i, e :: es => (if k ≠ .notGeneric ∧ extMatches k e then (2 : Int) ^ i else 0) + bypassFrom k (i + 1) es
 
-def extVals (k : XKernel) (e : Ext) : List Val :=
-  if k = .notGeneric then [.c 0]
+/-- values of one extension; for a body that does not start with a `dart.generic` the unrepaired tree emits ONE
+zero whatever `csr_length` is (D83), FC08b emits `csr_length` zeros -/
+def extVals (v : Variant) (k : XKernel) (e : Ext) : List Val :=
+  if k = .notGeneric then (if v.extCsrLen then List.replicate (csrLen e) (.c 0) else [.c 0])
   else if extMatches k e then (csrValues k).map Val.c
   else List.replicate (csrLen e) (.c 0)
 
-/-- second loop of `_generate_stream_setup_vals`; `zlast` is the value the variable `is_zero_pattern` has
-after the FIRST loop (the last streamer's), which is what the masks read. -/
-def xdmaBlock (op : XdmaOp) (zlast : Bool) (x : Streamer × Nat) : Except Err (List Val) :=
+/-- second loop of `_generate_stream_setup_vals`; `z` is the value of the variable `is_zero_pattern` that the
+masks of this streamer read (see `maskFlag`). -/
+def xdmaBlock (v : Variant) (op : XdmaOp) (z : Bool) (x : Streamer × Nat) : Except Err (List Val) :=
   match op.s.pats[x.2]? with
   | none => .error .indexError
   | some p =>
@@ -511,25 +573,41 @@ def xdmaBlock (op : XdmaOp) (zlast : Bool) (x : Streamer × Nat) : Except Err (L
       | .error e => .error e
       | .ok ts =>
         .ok (ss ++ boundVals x.1 p ++ ts
-             ++ (if x.1.has .chan then [.c (if zlast then 0 else -1)] else [])
-             ++ (if x.1.has .byteMask then [.c (if zlast then 0 else -1)] else [])
+             ++ (if x.1.has .chan then [.c (if z then 0 else -1)] else [])
+             ++ (if x.1.has .byteMask then [.c (if z then 0 else -1)] else [])
              ++ [.c (bypassFrom op.kernel 0 x.1.exts)]
-             ++ x.1.exts.flatMap (extVals op.kernel))
+             ++ x.1.exts.flatMap (extVals v op.kernel))
 
 def xdmaPtr (op : XdmaOp) (x : Streamer × Nat) : Except Err Bool :=
   match op.s.zero[x.2]? with
   | none => .error .indexError
   | some z => .ok z
 
-def xdmaVals (cfg : List Streamer) (op : XdmaOp) : Except Err (List Val) :=
+/-- Which zero-pointer flag the masks of streamer `x` read. Unrepaired (D80): the variable `is_zero_pattern` still
+holds the value of the LAST streamer of the first loop (`zlast`). FC08a: `zero_patterns[operand]`, a list
+initialised with `False` and filled by the first loop. -/
+def maskFlag (v : Variant) (op : XdmaOp) (zlast : Bool) (x : Streamer × Nat) : Bool :=
+  if v.zeroPerOperand then (op.s.zero[x.2]?).getD false else zlast
+
+def xdmaVals (v : Variant) (cfg : List Streamer) (op : XdmaOp) : Except Err (List Val) :=
   match cfg.zipIdx.mapM (xdmaPtr op) with
   | .error e => .error e
   | .ok zs =>
     let zlast := zs.getLast?.getD false          -- `is_zero_pattern = False` before the loop
-    match cfg.zipIdx.mapM (xdmaBlock op zlast) with
+    match cfg.zipIdx.mapM (fun x => xdmaBlock v op (maskFlag v op zlast x) x) with
     | .error e => .error e
     | .ok bs =>
       .ok ((cfg.zipIdx.zip zs).flatMap (fun y => [ptrLowVal y.2 y.1.2, .c 0]) ++ (cfg.zipIdx.zip bs).flatMap (·.2))
+
+/-! ## The launch op: `accfg.LaunchOp([...], self.launch_fields, setup)` -/
+
+/-- (launch field, constant written) per accelerator: both launch registers of a streamer accelerator get the same
+`arith.constant 1 : i5`, xDMA `1 : i32`, hwpe `0 : i5` -/
+def aluLaunch : List (String × Int) := [("launch_streamer", 1), ("launch_alu", 1)]
+def gemmxLaunch : List (String × Int) := [("launch_streamer", 1), ("launch_gemmx", 1)]
+def xdmaLaunch : List (String × Int) := [("launch_start", 1)]
+def phsLaunch : List (String × Int) := [("launch_streamer", 1), ("launch_alu", 1)]
+def hwpeLaunch : List (String × Int) := [("launch", 0)]
 
 /-! ## snax_hwpe_mult (linalg path, fixed tables) -/
 
@@ -561,7 +639,7 @@ def streamMeaning (cfg : List Streamer) (op : StreamOp) : Field → Option Den
 
 def aluMeaning (cfg : List Streamer) (op : StreamOp) : Field → Option Den
   | .aluMode => some (konst 0)
-  | .loopBoundAlu => (op.pats[0]?).bind fun p => (p.dims[0]?).map fun d => konst d.1
+  | .loopBoundAlu => (op.pats[0]?).map fun p => konst (prodI (p.dims.map (·.1)))   -- the number of temporal steps
   | f => streamMeaning cfg op f
 
 /-- gemmx kernel fields relative to the computed parameters `P` (what the parameters themselves must be is
